@@ -57,7 +57,7 @@ AUDIT = [
      "reason": "(ptr, len or len-1) of the same slice"},
     {"fn": r"^ohkami_lib::slice::Slice::new_unchecked$", "sink": r".", "guards": [{"kind": "in_unsafe_fn"}], "reason": "unsafe fn"},
     # ---- accessors: `expect`s on stored bytes are sound only if read validated those bytes
-    {"fn": r"^ohkami::request::headers::Headers::(get_standard|get|iter::\{closure#\d+\}(::\{closure#\d+\})?)$", "sink": r"^panic-call:Result::expect$",
+    {"fn": r"^ohkami::request::headers::Headers::(get_standard|get|iter)(::\{closure#\d+\})*$", "sink": r"^panic-call:Result::expect$",
      "guards": [READ_VALIDATES_VALUE], "reason": "header names/values are stored only after from_utf8 succeeded in Request::read (setters take &str/String)"},
     {"fn": r"path::Path>::(str|as_ref|params::\{closure#0\})$", "sink": r"^panic-call:Result::expect$",
      "guards": [READ_VALIDATES_PATH], "reason": "the request target is stored only after it was checked to be UTF-8 both raw and percent-decoded"},
